@@ -345,6 +345,19 @@ func CmdCheck(args []string) int {
 		if budget == 0 {
 			budget = []int{240, 1200}[tier]
 		}
+		// the whole check has a wall budget too (quick 15 min, thorough 45 min):
+		// harnesses that do not fit are reported as not run, never as passed
+		total := []int{900, 2700}[tier]
+		left := total - int(time.Since(t0).Seconds())
+		if left < 20 {
+			msg := fmt.Sprintf("%s: not run: the wall budget of the check (%d s) was used up by the harnesses before it", h.Label, total)
+			fmt.Fprintf(os.Stderr, "INCONCLUSIVE %s\n", msg)
+			reports = append(reports, harnessReport{Name: h.Label, Pkg: h.Pkg, Desc: h.Desc, Bound: h.Bounds[tier], Early: "not run: check wall budget exhausted", Stops: map[string]int{}, ByAssert: map[string]int{}, Events: map[string]int{}, Enumerative: h.Enumerative})
+			continue
+		}
+		if budget > left {
+			budget = left
+		}
 		cfg.Deadline = time.Now().Add(time.Duration(budget) * time.Second)
 		if tier == 1 {
 			cfg.QueryTimeoutMs = 60000
